@@ -10,10 +10,10 @@ Section Exc.
 Variable c : config.
 
 (* errors of the reader thread itself *)
-Definition okr (e : Z) : Prop := In (RFail e) (cf_items c) \/ e = 12.
+Definition okr (e : Z) : Prop := In (RFail e) (cf_items c) \/ (e = 12 /\ In ROom (cf_items c)).
 
 Definition just (e : Z) : Prop :=
-  e = -1 \/                                                                       (* the user's callback raised *)
+  (e = -1 /\ exists k, cf_plan c = CbRaiseFrom k) \/                               (* the user's callback raised *)
   (e = 1000 /\ cf_verify c <> None) \/                                             (* content error of a verification *)
   (exists i es, nth_error (yielded (cf_items c)) i = Some (RExc es) /\ In e es) \/  (* carried by an item *)
   okr e.
@@ -42,15 +42,16 @@ Proof.
   intros e0 E. injection E as <-. left. apply (suffix_in _ _ Hs). left. reflexivity.
 Qed.
 
-Lemma step_reader_RQ s : RQ s -> RQ (step_reader s).
+Lemma step_reader_RQ s : FInv c s -> RQ s -> RQ (step_reader s).
 Proof.
-  intros (A & B & C). unfold step_reader. destruct (s_rpc s) as [|it| |exc|] eqn:Erpc.
+  intros Hf (A & B & C). unfold step_reader. destruct (s_rpc s) as [|it| |exc|] eqn:Erpc.
   - destruct (s_stop s); [split; [apply suffix_nil|split; cbn; [discriminate|exact C]]|].
     destruct (s_rtodo s) as [|[h|es| | |e] rest]; (split; [exact A|split; cbn; [discriminate|exact C]]).
   - apply reader_next_RQ; [apply suffix_tl; exact A|exact C].
   - destruct (s_now s - s_memts s >=? 100).
     + destruct (negb (_ =? _)); [apply reader_next_RQ; [apply suffix_tl; exact A|exact C]|].
-      split; [apply suffix_nil|split; cbn; [intros e E; injection E as <-; right; reflexivity|exact C]].
+      split; [apply suffix_nil|split; cbn; [intros e E; injection E as <-; right; split; [reflexivity|]|exact C]].
+      destruct (fi_clock c s Hf Erpc) as (rest & Et). apply (suffix_in _ _ A). rewrite Et. left. reflexivity.
     + apply reader_next_RQ; [apply suffix_tl; exact A|exact C].
   - split; [apply suffix_nil|split; cbn; [discriminate|]]. intros e ->. apply B. reflexivity.
   - unfold RQ. rewrite Erpc. repeat split; assumption.
@@ -81,14 +82,19 @@ Lemma next_hasher_not_clock s o pos idx h exc : next_hasher s o pos <> MClock id
 Proof. unfold next_hasher. destruct (nth_error (s_tracked s) pos); discriminate. Qed.
 
 (* what the collector can raise when it handles an item *)
+Lemma user_cb_raises d : user_cb c d = Some true -> exists k, cf_plan c = CbRaiseFrom k.
+Proof. unfold user_cb. destruct (cf_plan c) as [| |k|k]; try discriminate; [destruct (_ >=? _); discriminate|intros _; exists k; reflexivity]. Qed.
+
 Lemma collect_item_raise s idx h exc e :
   s_mpc (collect_item c s idx h exc) = MStopRead (AFinal (ORaise e)) ->
-  e = -1 \/ In e exc \/ (e = 1000 /\ cf_verify c <> None).
+  (e = -1 /\ exists k, cf_plan c = CbRaiseFrom k) \/ In e exc \/ (e = 1000 /\ cf_verify c <> None).
 Proof.
   unfold collect_item. destruct (_ || _); [|cbn; discriminate].
-  destruct (cf_verify c) eqn:Ev; destruct exc as [|e0 r]; destruct (has_user_cb c); try destruct (mismatch c idx h); try destruct (user_cb c _) as [[|]|];
-    cbn; intros E; try discriminate E; injection E as <-; auto;
-    try (right; left; left; reflexivity); right; right; split; [reflexivity|discriminate].
+  destruct (cf_verify c) eqn:Ev; destruct exc as [|e0 r]; destruct (has_user_cb c); try destruct (mismatch c idx h);
+    try (destruct (user_cb c (zlen (s_seen s))) as [[|]|] eqn:Eu);
+    cbn; intros E; try discriminate E; injection E as <-;
+    try (left; split; [reflexivity|exact (user_cb_raises _ Eu)]);
+    try (right; left; left; reflexivity); right; right; (split; [reflexivity|discriminate]).
 Qed.
 
 Lemma collect_item_result_same s idx h exc : s_result (collect_item c s idx h exc) = s_result s.
@@ -132,8 +138,8 @@ Proof.
     pose proof (Q2 idx h exc eq_refl) as Hpay. set (s1 := set_now s (s_now s + inc)).
     split; [|split].
     + intros e E. destruct (collect_item_mpc c s1 idx h exc) as [Em|[Em|[e' Em]]]; rewrite Em in E; try discriminate E.
-      injection E as <-. destruct (collect_item_raise c s1 idx h exc e' Em) as [->|[Hin|[-> Hv]]].
-      * left. reflexivity.
+      injection E as <-. destruct (collect_item_raise c s1 idx h exc e' Em) as [[-> Hk]|[Hin|[-> Hv]]].
+      * left. split; [reflexivity|exact Hk].
       * exact (just_of_payload c idx h exc e' Hpay Hin).
       * right. left. split; [reflexivity|exact Hv].
     + intros idx' h' exc' E. destruct (collect_item_mpc c s1 idx h exc) as [Em|[Em|[e' Em]]]; rewrite Em in E; discriminate E.
@@ -204,10 +210,10 @@ Proof.
   - pose proof (flow_invariant c s Hr) as Hf.
     unfold step. destruct (t =? 0); [split; [apply step_main_RQ|apply step_main_Q]; assumption|].
     destruct (t =? 1).
-    + assert (Hg : forall s0, RQ c s0 -> s_mpc s0 = s_mpc s -> s_result s0 = s_result s -> RQ c (step_reader s0) /\ Q c (step_reader s0)).
-      { intros s0 H0 E1 E2. split; [apply step_reader_RQ; exact H0|]. destruct (step_reader_keep s0) as (_ & _ & _ & _ & _ & A & B).
+    + assert (Hg : forall s0, FInv c s0 -> RQ c s0 -> s_mpc s0 = s_mpc s -> s_result s0 = s_result s -> RQ c (step_reader s0) /\ Q c (step_reader s0)).
+      { intros s0 Hf0 H0 E1 E2. split; [apply step_reader_RQ; [exact Hf0|exact H0]|]. destruct (step_reader_keep s0) as (_ & _ & _ & _ & _ & A & B).
         apply (Q_keep c s); [rewrite A; exact E1|rewrite B; exact E2|exact IQ]. }
-      destruct (s_rpc s) eqn:Erpc; apply Hg; try reflexivity; try exact IR; apply (RQ_keep c s); try reflexivity; exact IR.
+      destruct (s_rpc s) eqn:Erpc; apply Hg; try reflexivity; try exact IR; try exact Hf; try (apply (FInv_of_fview c s); [reflexivity|exact Hf]); apply (RQ_keep c s); try reflexivity; exact IR.
     + destruct (t =? 2).
       * destruct (step_janitor_rq s a) as (A1 & A2 & A3). destruct (step_janitor_keep s a) as (_ & _ & _ & _ & E5 & E6).
         split; [apply (RQ_keep c s); assumption|apply (Q_keep c s); assumption].
@@ -223,11 +229,28 @@ Proof. intros Hr Hres. destruct (exception_invariant c s Hr) as [_ (_ & _ & Q3)]
 (* ... in particular hashing readable content without a callback never raises anything but a reader error *)
 Theorem generate_raises_only_reader_errors c s e hs :
   reach c s -> cf_verify c = None -> cf_plan c = CbAbsent -> yielded (cf_items c) = map RPiece hs ->
-  s_result s = Some (ResRaise e) -> e = -1 \/ okr c e.
+  s_result s = Some (ResRaise e) -> okr c e.
 Proof.
   intros Hr Hg Hp HY Hres. destruct (exception_only_for_a_reason c s e Hr Hres) as [E|[[_ Hv]|[(i & es & Hn & _)|E]]].
-  - left. exact E.
+  - destruct E as [_ [k Hk]]. rewrite Hp in Hk. discriminate Hk.
   - rewrite Hg in Hv. exfalso. apply Hv. reflexivity.
   - rewrite HY, nth_error_map in Hn. destruct (nth_error hs i); discriminate Hn.
-  - right. exact E.
+  - exact E.
+Qed.
+
+(* ... and a cancelling callback never makes a hashing run over readable content raise: without out-of-memory events and
+   iterator failures the call returns a verdict (or the RuntimeError of a refused thread) *)
+Theorem cancelled_generate_never_raises c s e hs k :
+  reach c s -> cf_verify c = None -> cf_plan c = CbCancelFrom k -> cf_items c = map RPiece hs ->
+  s_result s = Some (ResRaise e) -> False.
+Proof.
+  intros Hr Hg Hp Hitems Hres.
+  assert (HY : yielded (cf_items c) = map RPiece hs).
+  { rewrite Hitems. unfold yielded. clear. induction hs as [|x l IH]; [reflexivity|]. cbn. rewrite IH. reflexivity. }
+  destruct (exception_only_for_a_reason c s e Hr Hres) as [[_ [k' Hk]]|[[_ Hv]|[(i & es & Hn & _)|[E|[_ E]]]]].
+  - rewrite Hp in Hk. discriminate Hk.
+  - apply Hv. exact Hg.
+  - rewrite HY, nth_error_map in Hn. destruct (nth_error hs i); discriminate Hn.
+  - rewrite Hitems in E. apply in_map_iff in E as (x & Ex & _). discriminate Ex.
+  - rewrite Hitems in E. apply in_map_iff in E as (x & Ex & _). discriminate Ex.
 Qed.
